@@ -9,6 +9,7 @@ import Jsonapi.Driver.Range
 import Jsonapi.Driver.Struct
 import Jsonapi.Driver.Resource
 import Jsonapi.Driver.Marshal
+import Jsonapi.Driver.Unmarshal
 open Jsonapi Jsonapi.Driver
 
 structure DState where
@@ -38,6 +39,9 @@ def stepLine (st : DState) (line : String) : DState × String :=
     ({ st with col := c' }, m ++ "\t" ++ sp ++ "\t" ++ (if dom then "1" else "0"))
   | [.list (.atom "marshal" :: args)] =>
     let (m, sp, dom) := stepMarshal args
+    (st, m ++ "\t" ++ sp ++ "\t" ++ (if dom then "1" else "0"))
+  | [.list (.atom "unm" :: args)] =>
+    let (m, sp, dom) := stepUnm args
     (st, m ++ "\t" ++ sp ++ "\t" ++ (if dom then "1" else "0"))
   | _ => (st, "bad-line\t-\t0")
 
